@@ -1,11 +1,16 @@
 /-
   C11 — MCSLock serves conflicting requests in arrival order.
-  Status: the step-faithful model (`Model/Mcs.lean`) is compared quantum by quantum with the real
-  code, and the arrival-order monitor (`Monitor.fifoEvent/fifoGrant`) runs on every implementation
-  trace.  The queue invariant from which arrival order follows (DESIGN.md §5.3, clauses 1–3) is not
-  mechanised yet; what is proved here are the bit-level obligations of the enqueue path.
+  `c11_no_overtake`: in every reachable state of the step-faithful model, no request holds a grant while a
+  conflicting request that is ahead of it in the queue is still unfinished.  The queue is the arrival order
+  by construction of the ghost update (`c11_queue_is_arrival_order`): a LockSIX / LockX request is appended
+  at the end by its exchange of the lock word, a LockS request installs a group on a free lock or joins the
+  *last* group by its CAS — each the request's first modification of the lock object — and groups leave only
+  from the front.  Proved from the protocol invariant (`Proofs/Mcs*.lean`); the model is compared quantum by
+  quantum with the real code and the arrival-order monitor runs on every implementation trace.
 -/
 import CppUtil.Props.McsBits
+import CppUtil.Proofs.McsFifo
+import CppUtil.Props.McsProto
 
 namespace CppUtil.Props
 open CppUtil CppUtil.Props.McsBits
@@ -23,5 +28,26 @@ theorem c11_tail_word (p : Word) (hp : p &&& C.kLockMask = 0) :
 theorem c11_join_keeps_tail (w : Word) (h : sfield w ≠ BitVec.allOnes 15) :
     pfield (w + C.kSLock) = pfield w ∧ xb (w + C.kSLock) = xb w ∧ sixb (w + C.kSLock) = sixb w :=
   let r := add_s w h; ⟨r.2.2.2, r.1, r.2.1⟩
+
+/-- **C11**: no overtaking, every reachable state -/
+theorem c11_no_overtake (nlocks nthreads : Nat) (acts : List Mcs.Act)
+    (hr : Mcs.RunOK mcsPb mcsCb mcsParams (Mcs.mkSt nlocks nthreads) acts) (i j : Nat) (a b : Mcs.Agent)
+    (hi : (Mcs.run mcsParams (Mcs.mkSt nlocks nthreads) acts).agents[i]? = some a)
+    (hj : (Mcs.run mcsParams (Mcs.mkSt nlocks nthreads) acts).agents[j]? = some b) (hla : a.lk = b.lk)
+    (hahead : Mcs.Ahead (Mcs.ghostRun mcsParams (Mcs.mkSt nlocks nthreads) (fun _ => []) acts) a.lk i a j b)
+    (mb : Mode) (hgb : b.loc.grant? = some mb) (hc : conflict (Mcs.reqMode a) mb = true) : False :=
+  Mcs.no_overtake (mcs_invariant nlocks nthreads acts hr).inv hi hj hla hahead hgb hc
+
+/-- the ghost queue is the arrival order: how each kind of step changes it (any state, any queue) -/
+theorem c11_queue_is_arrival_order (s : Mcs.St) (Q : Nat → List Mcs.Grp) (i : Nat) (a : Mcs.Agent)
+    (hi : s.agents[i]? = some a) :
+    (∀ m, a.loc = .xXchg m → Mcs.ghostAtom mcsParams s Q i a.lk = Q a.lk ++ [{ node := a.qnode, head := some i }]) ∧
+    (a.loc = .sCas → Mcs.ghostAtom mcsParams s Q i a.lk = Q a.lk ∨
+      Mcs.ghostAtom mcsParams s Q i a.lk = [{ node := a.qnode, head := none }]) ∧
+    (∀ m ph, a.loc = .rel m ph → Mcs.ghostAtom mcsParams s Q i a.lk = Q a.lk ∨
+      Mcs.ghostAtom mcsParams s Q i a.lk = (Q a.lk).tail ∨ Mcs.ghostAtom mcsParams s Q i a.lk = []) ∧
+    (a.loc ≠ .sCas → (∀ m, a.loc ≠ .xXchg m) → (∀ m ph, a.loc ≠ .rel m ph) → Mcs.ghostAtom mcsParams s Q i = Q) :=
+  ⟨fun m h => Mcs.ghost_arrive_head i a m hi h, fun h => Mcs.ghost_arrive_shared i a hi h,
+   fun m ph h => Mcs.ghost_release i a m ph hi h, fun h1 h2 h3 => Mcs.ghost_other i a hi h1 h2 h3⟩
 
 end CppUtil.Props
